@@ -125,6 +125,8 @@ class Selector:
         if isinstance(e, ast.Name):
             if e.id in env:
                 return env[e.id]
+            if e.id in fi.params and isinstance(subst.get(e.id), ast.Attribute):
+                return [(True, True, norm(subst[e.id]), ())]         # a parameter the caller binds to an attribute (self.triples)
             d = unique_def(view(self.ctx, fi), e.id, at)
             if d is None:
                 raise AnalysisError(f'{fi.fq}: selection: {e.id} has no single definition')
